@@ -160,6 +160,7 @@ def edit_name(ed):
 
 # ------------------------------------------------------------------ worker
 LOC_RE = re.compile(r"^(.*?):(\d+): ")
+ASM_RE = re.compile(r"\b(asm|__asm__)\b")
 LINEDIR_RE = re.compile(r"(?m)^[ \t]*#[ \t]*(line\b|\d)")
 
 
@@ -222,7 +223,9 @@ def worker_main(jobfile):
                     break
             out = os.path.exists(o)
             asrc, aserr = -1, ""
-            if rc == 0 and out:
+            if rc == 0 and out and "text" in j and ASM_RE.search(j["text"]):
+                asrc = 0          # user-written assembler text: what `as` says about it is not the compiler's answer
+            elif rc == 0 and out:
                 a = subprocess.run(["as", "-o", "/dev/null", o], capture_output=True, text=True, timeout=120, errors="replace")
                 asrc = a.returncode
                 aserr = "\n".join([x for x in a.stderr.splitlines() if "Error" in x or "error" in x][:2])
@@ -499,6 +502,7 @@ def run(ctx):
         "lines(file) counts the position after the final newline (the EOF token's line) as a line",
         "the time limit is 5 s of CPU time (RLIMIT_CPU) and 30 s wall; output beyond 64 MB counts as a hang",
         "when the input contains a #line directive the reported line is a presumed line and only its presence is judged (C18 judges presumed positions)",
+        "for edited inputs that contain an asm statement the assembler's verdict is not judged (the asm text is the user's)",
         "only the first line of stderr is judged for the location (warnings printed before an error carry a location too)",
         "the front end is run as `chibicc -cc1` directly; the driver's signal -> exit 1 mapping is exercised by C14",
         "inputs are token-level edits of the seeds rendered with single spaces; byte-level garbage (NUL bytes, invalid UTF-8, very long lines) is outside the enumerated domain"]
